@@ -171,7 +171,9 @@ theorem forest_rank_is_dfnum (g : Digraph) (f : Nat) (s : St) (n : Nat) (h : dfs
   · intro s' w pw hF hp hk1 hk2
     exact forest_link hF (hfacts.parent_lt w pw hp).2.2 hk1 hk2
 
-/-- the full statement follows from "the checker never rejects the model's answer" — the remaining gap -/
+/-- Historical bridge, kept because it is true and short: the full statement follows from "the checker
+    never rejects the model's answer".  That hypothesis is no longer a gap: `domlt_correct` proves the
+    full statement directly and `domLT_always_certified` proves the hypothesis. -/
 theorem domlt_correct_of_always_certified
     (hgap : ∀ g : Digraph, g.WF → ∃ r, domLT g = some r ∧ checkDomTree g r.idom = true) :
     domlt_correct_full := by
